@@ -224,6 +224,26 @@ fn hooks_end<T>(value: T) -> RunOut<T> {
     RunOut { value, decisions: vec![], stale: false, probes: vec![], states: vec![], state_tags: vec![] }
 }
 
+/// A prepared earlier call (input built on the builder thread).
+pub enum PreInput {
+    Euclid(PartialDSym),
+    Simplify(PartialDSym),
+}
+
+/// Execute the explicit call history on the current (run) thread.
+fn run_pre(pre: &[PreInput]) {
+    for p in pre {
+        let _ = std::panic::catch_unwind(std::panic::AssertUnwindSafe(|| match p {
+            PreInput::Euclid(s) => {
+                let _ = is_euclidean(s);
+            }
+            PreInput::Simplify(d) => {
+                let _ = simplify(d);
+            }
+        }));
+    }
+}
+
 pub fn hooks_compiled() -> bool {
     cfg!(rust_dsymbols_verif)
 }
@@ -455,6 +475,32 @@ impl Executor {
         self.ptc_cache[&key].clone()
     }
 
+    fn build_pre(&mut self, spec: &Spec) -> Vec<PreInput> {
+        let mut out = vec![];
+        for p in &spec.pre {
+            let s = match Sym::parse(&p.base) {
+                Ok(s) if s.validate().is_ok() => {
+                    if p.dual {
+                        s.dual()
+                    } else {
+                        s
+                    }
+                }
+                _ => continue,
+            };
+            match p.op {
+                Op::IsEuclidean => out.push(PreInput::Euclid(s.to_partial())),
+                Op::SimplifyPtc => {
+                    if let Some(c) = self.ptc(&s) {
+                        out.push(PreInput::Simplify(c.to_partial()));
+                    }
+                }
+                _ => out.push(PreInput::Simplify(s.to_partial())),
+            }
+        }
+        out
+    }
+
     pub fn show_input(&mut self, spec: &Spec) -> Result<String, String> {
         Ok(self.build_input(&spec.base, &spec.xf)?.to_text())
     }
@@ -500,6 +546,7 @@ impl Executor {
         let warm = Sym::parse(TINY_WARMUP).unwrap().to_partial();
         let steer = spec.steer.clone();
         let (minb, recs) = (spec.steer_min_beyond, spec.rec_states);
+        let pre = std::sync::Arc::new(self.build_pre(spec));
 
         fn verdict(e: Euclidean) -> (String, String) {
             match e {
@@ -516,10 +563,12 @@ impl Executor {
         let out = match spec.repr {
             Repr::SimpleDSym => {
                 let ds = s.to_simple();
+                let pre2 = pre.clone();
                 on_fresh_thread(spec.k0, spec.k1, move || {
                     for _ in 0..hist {
                         let _ = is_euclidean(&warm);
                     }
+                    run_pre(&pre2);
                     hooks_begin(&steer, minb, recs);
                     let v = std::panic::catch_unwind(std::panic::AssertUnwindSafe(|| verdict(is_euclidean(&ds))));
                     let out = hooks_end(());
@@ -531,10 +580,12 @@ impl Executor {
             }
             _ => {
                 let ds = s.to_partial();
+                let pre2 = pre.clone();
                 on_fresh_thread(spec.k0, spec.k1, move || {
                     for _ in 0..hist {
                         let _ = is_euclidean(&warm);
                     }
+                    run_pre(&pre2);
                     hooks_begin(&steer, minb, recs);
                     let v = std::panic::catch_unwind(std::panic::AssertUnwindSafe(|| verdict(is_euclidean(&ds))));
                     let out = hooks_end(());
@@ -704,7 +755,10 @@ impl Executor {
                     if !x0.is_connected() {
                         return Err("not connected".to_string());
                     }
-                    if dsx::covering_degree(&x0, &s).is_none() {
+                    // what must it cover? the base symbol - or, for a manifold given
+                    // directly (one-cube torus), the cubic tiling itself
+                    let target = if spec.op == Op::SimplifySelf { Sym::parse(crate::plan::CUBE).unwrap() } else { s.clone() };
+                    if dsx::covering_degree(&x0, &target).is_none() {
                         return Err("not a covering of the base symbol".to_string());
                     }
                     match homology::h1(&x0) {
@@ -735,6 +789,7 @@ impl Executor {
         let warm = Sym::parse(TINY_WARMUP).unwrap().to_partial();
         let steer = spec.steer.clone();
         let (minb, recs) = (spec.steer_min_beyond, spec.rec_states);
+        let pre = self.build_pre(spec);
         // the concrete input value is built here, on the builder thread, and
         // moved into the run thread: nothing but the scenario runs there
         enum Input {
@@ -757,6 +812,7 @@ impl Executor {
             for _ in 0..hist {
                 let _ = is_euclidean(&warm);
             }
+            run_pre(&pre);
             hooks_begin(&steer, minb, recs);
             let v = std::panic::catch_unwind(std::panic::AssertUnwindSafe(|| match &input {
                 Input::A(d) => simplify(d),
